@@ -331,6 +331,7 @@ def run_harness(u, h, bdir, tier, unit_info):
             res['canary'] = 'none'
         obligations = []
         failed = []
+        undecided = []
         for r in results:
             sl = r.get('sourceLocation', {}) or {}
             ob = {'property': r.get('property'), 'description': r.get('description'),
@@ -338,12 +339,20 @@ def run_harness(u, h, bdir, tier, unit_info):
                   'function': sl.get('function')}
             ob['line_text'] = source_line(sl.get('file'), sl.get('line'), bdir, u)
             obligations.append(ob)
-            if r.get('status') != 'SUCCESS':
+            if r.get('status') == 'FAILURE':
                 ob['trace_inputs'] = trace_inputs(r.get('trace', []))
                 failed.append(ob)
+            elif r.get('status') != 'SUCCESS':
+                undecided.append(ob)
         res['obligations'] = obligations
         res['failed'] = failed
         res['status'] = 'fail' if failed else 'pass'
+        res['undecided'] = len(undecided)
+        if undecided and not failed:
+            # CBMC reports UNKNOWN/ERROR for obligations it did not decide (e.g. behind a failed
+            # unwinding assertion): that is not a violation
+            raise Inconclusive('%d obligations left undecided by cbmc (first: %s)'
+                               % (len(undecided), undecided[0]['property']))
         if status not in ('success', 'failure'):
             raise Inconclusive('cbmc status %s' % status)
     except Inconclusive as e:
